@@ -40,6 +40,12 @@ Theorem deepcopy_disjoint : forall h self others, wf h -> self < length (objs h)
   (forall t, t < length (objs h) -> value h' t = value h t).
 Proof. exact deepcopy_disjoint. Qed.
 
+(* the monitor's prediction: the set of objects the model reports as possibly changed by one operation
+   contains at most the target of a documented in-place operation *)
+Theorem changed_only_inplace : forall h o t, wf h ->
+  In t (changed h (fst (step h o))) -> inplace_on o t.
+Proof. exact changed_only_inplace. Qed.
+
 Theorem returns_new_object : forall h o,
   match o with
   | Pure _ _ _ | Create _ => snd (step h o) = Some (length (objs h))
